@@ -96,6 +96,9 @@ func (ex *Exec) callFn(fr *Frame, st *State, pc *Term, fn *ssa.Function, args []
 		return ex.inline(fr, st, pc, fn, args, binds, true, pos), pc
 	}
 	if c != nil && !c.Inline && !(fr.top && false) {
+		if ex.curContract != nil && fn.Pkg != nil && has(ex.curContract.InlineCalls, fn.RelString(fn.Pkg.Pkg)) {
+			return ex.inline(fr, st, pc, fn, args, binds, false, pos), pc
+		}
 		return ex.modularCall(fr, st, pc, fn, c, args, binds, pos)
 	}
 	if fr.spec {
@@ -470,7 +473,7 @@ func (ex *Exec) modularCall(fr *Frame, st *State, pc *Term, fn *ssa.Function, c 
 	// ghost components (files, buffers, sync.Map versions) the callee may write are unknown afterwards;
 	// the lock set is restored by the callee (its lock-balance obligation)
 	for comp := range ws {
-		if strings.HasPrefix(comp, "G|") && comp != compHeld && compSorts[comp] != nil {
+		if strings.HasPrefix(comp, "G|") && comp != compHeld && !objectKeyedGhost[comp] && compSorts[comp] != nil {
 			ex.noteWrite(comp)
 			st.setComp(comp, Fresh("havoc$"+comp, compSorts[comp]))
 		}
